@@ -620,7 +620,14 @@ class Graph(object):
         is_true : `bool`
             If the graph is a tree.
         """
-        return not self.has_cycles() and self.n_edges == self.n_vertices - 1
+        if self.has_cycles() or self.n_edges != self.n_vertices - 1:
+            return False
+        # n_vertices - 1 edges without a directed cycle can still leave a
+        # directed graph in several pieces - a tree has to be connected
+        n_components = csgraph.connected_components(
+            self.adjacency_matrix, directed=False, return_labels=False
+        )
+        return n_components == 1
 
     def _check_vertex(self, vertex):
         r"""
